@@ -529,9 +529,9 @@ type Env struct {
 	st   *State
 	old  *State
 	vars map[string]Val
-	// callFresh, when set (postconditions of a callee applied at a call site), yields the caller-side local that
-	// stands for "an object the callee allocated", one per distinct expression
-	callFresh func(key string) *Term
+	// callFresh, when set (postconditions of a callee applied at a call site), yields the condition "this object was
+	// allocated by the callee": new since entry and different from every object the caller holds at the call
+	callFresh func(obj *Term) *Term
 }
 
 func (e *Env) with(vars map[string]Val) *Env {
@@ -858,7 +858,7 @@ func (p *Prog) elab(fx *Fx, x *SExp, env *Env) Val {
 		if env.callFresh != nil {
 			// in a callee's postcondition at a call site: the object is one the callee allocated, i.e. a new
 			// object of the caller (distinct from every object the caller has or will allocate itself)
-			return tv(Eq(v.L[objLeaf(v)], env.callFresh(args[0].String())))
+			return tv(env.callFresh(v.L[objLeaf(v)]))
 		}
 		return tv(p.isFresh(fx, v.L[objLeaf(v)]))
 	}
